@@ -1534,7 +1534,7 @@ class ZMatrix(TwoPortMatrix):
     @property
     def Igain21(self):
         """Reverse current gain"""
-        return LaplaceDomainTransferFunction(-self._Z21 / self._Z11)
+        return LaplaceDomainTransferFunction(-self._Z12 / self._Z11)
 
     @classmethod
     def Lsection(cls, Z1, Z2):
